@@ -2,6 +2,7 @@
 package c15
 
 import (
+	crand "crypto/rand"
 	"encoding/hex"
 	"fmt"
 	"io"
@@ -32,6 +33,17 @@ func init() {
 			"stdout is captured by swapping os.Stdout for a pipe around the call (the worker is single-threaded around it)"},
 		ShardsQuick: 8, ShardsThor: 16, TimeoutS: 600, TimeoutThor: 3000, Run: run,
 	})
+}
+
+// flakyReader fails its first read and then delegates to crypto/rand.
+type flakyReader struct{ n int }
+
+func (f *flakyReader) Read(p []byte) (int, error) {
+	f.n++
+	if f.n == 1 {
+		return 0, fmt.Errorf("transient entropy failure")
+	}
+	return crand.Read(p)
 }
 
 var explicitCounts = []uint32{4, 3, 1, 6, 240, 7, 2, 255}
@@ -246,6 +258,30 @@ func run(c *core.Ctx) {
 			}
 			if dry && err == nil {
 				dryOK++
+			}
+			// the same run when its first attempt fails transiently (the random source errors once) and the back end calls
+			// every error retriable: the retry of a dry run must be as free of side effects as its first attempt
+			if dry && !mo && !noTech {
+				f2 := &doubles.FCtl{}
+				vcs2 := doubles.NewMemVCS(f2)
+				vcs2.Retriable = true
+				ec2 := cloneReq(ec)
+				ec2.VCS, ec2.CommitRetries = vcs2, 2
+				var err2 error
+				c.Guard(idx, "endorse.VirtualFirmware", gname+" flaky-random", core.Budget{}, func() {
+					captureStdout(func() { err2 = a.Endorse(f2, authority.Opts{Overwrite: overwrite, Random: &flakyReader{}}, ec2) })
+				})
+				var side2 []string
+				for _, call := range f2.Log {
+					if strings.HasPrefix(call.Name, "vcs.GetChangeOps") || strings.HasPrefix(call.Name, "vcs.Write") || strings.HasPrefix(call.Name, "vcs.SetBinaryWritable") || strings.HasPrefix(call.Name, "vcs.TryCommit") {
+						side2 = append(side2, call.Name)
+					}
+				}
+				if len(side2) > 0 || vcs2.Commits > 0 {
+					c.Violate(core.Violation{Kind: "oracle", Entry: "endorse.VirtualFirmware", Site: "side-effect-in-dry-run-or-measurement-only", Gen: gname + " flaky-random", Case: idx,
+						Detail: fmt.Sprintf("dry run whose first attempt failed transiently (err of the run: %v): calls with side effects %v commits=%d", err2, side2, vcs2.Commits)})
+				}
+				c.Cell("dry-retry|snapshot=%v|err=%v|side-effects=%v", snapshot, err2 != nil, len(side2) > 0)
 			}
 			c.Cell("dry=%v|mo=%v|snp=%v|tdx=%v|snapshot=%v|cand=%v|overwrite=%v|explicit=%v|%s", dry, mo, snp, tdxOn, snapshot, cand, overwrite, explicit, cls)
 			if combo%61 == 0 {
